@@ -538,14 +538,11 @@ impl<'a> Interp<'a> {
                 env: env.clone(),
             }))),
             E::Capture(f, args) => {
-                let mut slots = vec![];
-                for a in args {
-                    slots.push(match a {
-                        Some(a) => Some(self.eval(a, env)?),
-                        None => None,
-                    });
-                }
-                Ok(V::Fun(Rc::new(Fun::Capture { f: f.clone(), args: slots })))
+                // `f(a, _, c)` is sugar for `fn(hole) { f(a, hole, c) }`: the other arguments are
+                // evaluated each time the resulting function is called, not when it is created
+                let hole = "__capture_hole";
+                let full: Vec<E> = args.iter().map(|a| a.clone().unwrap_or_else(|| E::Var(hole.to_string()))).collect();
+                Ok(V::Fun(Rc::new(Fun::Lam { params: vec![hole.to_string()], body: E::Call(f.clone(), full), env: env.clone() })))
             }
             E::Tuple(es) => {
                 let mut vs = vec![];
